@@ -17,6 +17,17 @@ func readMem(addr uintptr, n uintptr) []byte {
 	return unsafe.Slice((*byte)(unsafe.Pointer(addr)), int(n))
 }
 
+// fieldRanges: the address ranges of a key's buffers through the verif hook; ok = false when the hook does not compile
+// against this tree (stub)
+func fieldRanges(k *hdkeychain.ExtendedKey) (r [5][2]uintptr, ok bool) {
+	defer func() {
+		if e := recover(); e != nil {
+			ok = false
+		}
+	}()
+	return hk_hdkeychain_FieldRanges(k), true
+}
+
 func execC15(c Case) string {
 	keys := []*hdkeychain.ExtendedKey{}
 	out := []string{}
@@ -92,17 +103,19 @@ func execC15(c Case) string {
 			}
 		case "Z":
 			if k := h(1); k != nil {
-				rg := hk_hdkeychain_FieldRanges(k)
+				rg, have := fieldRanges(k)
 				k.Zero()
-				ok := true
-				for f := 0; f < 4; f++ {
-					for _, b := range readMem(rg[f][0], rg[f][1]) {
-						if b != 0 {
-							ok = false
+				if have {
+					ok := true
+					for f := 0; f < 4; f++ {
+						for _, b := range readMem(rg[f][0], rg[f][1]) {
+							if b != 0 {
+								ok = false
+							}
 						}
 					}
+					zeroOK = b2s(ok)
 				}
-				zeroOK = b2s(ok)
 			}
 		}
 		// observation of the whole pool
@@ -112,9 +125,14 @@ func execC15(c Case) string {
 			lo, hi uintptr
 		}
 		rs := []rng{}
+		hookless := false
 		for i, k := range keys {
 			strs = append(strs, hs(k.String()))
-			fr := hk_hdkeychain_FieldRanges(k)
+			fr, have := fieldRanges(k)
+			if !have {
+				hookless = true
+				continue
+			}
 			for f := 0; f < 4; f++ {
 				if fr[f][1] > 0 {
 					rs = append(rs, rng{i, f, fr[f][0], fr[f][0] + fr[f][1]})
@@ -132,6 +150,11 @@ func execC15(c Case) string {
 		}
 		sort.Strings(ov)
 		o := res + "|" + joinOr(strs, ",") + "|" + joinOr(ov, ",")
+		if hookless {
+			// without the white-box hook the address ranges are unknown: the black-box part (results, strings of the whole
+			// pool after every step) is still observed
+			o = res + "|" + joinOr(strs, ",") + "|?"
+		}
 		if zeroOK != "" {
 			o += "|z" + zeroOK
 		}
